@@ -266,6 +266,9 @@ pub fn run_session(ctx: &mut Ctx, t: &mut Tape, mode: Mode) {
             }
         };
         ctx.out.inner += 1;
+        // set when this re-parse hit an open known finding: the incremental tree is then wrong in a known way, and
+        // re-parses that start from it would report the same defect again under signatures that no longer show it
+        let mut tainted = false;
         let describe = |extra: &str| -> String {
             if let Ok(d) = std::env::var("VERIF_DUMP") {
                 let _ = std::fs::write(format!("{d}/old.txt"), &parsed_text);
@@ -339,6 +342,7 @@ pub fn run_session(ctx: &mut Ctx, t: &mut Tape, mode: Mode) {
                         if ctx.is_known(&sig) {
                             ctx.fail(sig, "");
                             continue_after_known = true;
+                            tainted = true;
                         } else {
                         ctx.fail(
                             sig,
@@ -371,6 +375,7 @@ pub fn run_session(ctx: &mut Ctx, t: &mut Tape, mode: Mode) {
                         let sig = if has_reserved_word_as_word_token(lang, &inc_x, &text.bytes) { "C01:mismatch:reserved_word_reused_as_word_token".to_string() } else { format!("C01:error_not_reported:{lname}") };
                         if ctx.is_known(&sig) {
                             ctx.fail(sig, "");
+                            tainted = true;
                         } else {
                         ctx.fail(sig, describe(&format!("scratch tree has an error, incremental tree reports none\nincremental={}\nscratch={}", inc_x.render(&lang.language, 120), scr_x.render(&lang.language, 120))));
                         return;
@@ -474,6 +479,10 @@ pub fn run_session(ctx: &mut Ctx, t: &mut Tape, mode: Mode) {
         pending_edits.clear();
         pending_texts.clear();
         old_had_error = inc.root_node().has_error();
+        if tainted {
+            ctx.label("session:ended_after_known_finding");
+            break;
+        }
         old = inc;
     }
     ctx.out.nontrivial = nontrivial;
